@@ -200,8 +200,11 @@ func checkMain(args []string) int {
 		}
 		var names []string
 		for _, o := range allObls {
-			if o.Result == "unsat" {
+			if o.Result == "unsat" && o.Ms < int64(timeout)*250 {
 				names = append(names, o.Name)
+			} else if o.Result == "unsat" {
+				// slow = unstable = future false alarm: not admitted (reported as UNDECIDED if it ever fails)
+				fmt.Printf("not admitted to the lock (discharged in %d ms, limit %d): %s\n", o.Ms, timeout*250, o.Name)
 			}
 		}
 		sort.Strings(names)
